@@ -290,7 +290,16 @@ func c11Judge(run *core.Run, h c11Host, reg c11Reg, hostile int) string {
 	hostType := map[string]string{"html": "text/html", "svg": "image/svg+xml", "css": "text/css"}[h.Lang]
 	switch h.Lang {
 	case "html":
-		m.Add("text/html", &mhtml.Minifier{})
+		switch reg.mode["text/html"] {
+		case -1:
+			m.Add("text/html", &mhtml.Minifier{})
+		case 1:
+			m.AddFunc("text/html", rec.stub("text/html", 0))
+		case 2:
+			m.AddFunc("text/html", rec.stub("text/html", 1))
+		case 3:
+			m.AddFunc("text/html", rec.stub("text/html", 2))
+		}
 	case "svg":
 		m.Add("image/svg+xml", &msvg.Minifier{})
 	case "css":
@@ -306,6 +315,11 @@ func c11Judge(run *core.Run, h c11Host, reg c11Reg, hostile int) string {
 				pan = fmt.Sprint(r)
 			}
 		}()
+		if h.Lang == "html" && reg.mode["text/html"] != -1 {
+			// the registry's text/html entry is not the host: call the host minifier directly
+			err = (&mhtml.Minifier{}).Minify(m, &out, strings.NewReader(h.Doc), nil)
+			return
+		}
 		err = m.Minify(hostType, &out, strings.NewReader(h.Doc))
 	}()
 	if pan != "" {
@@ -319,7 +333,7 @@ func c11Judge(run *core.Run, h c11Host, reg c11Reg, hostile int) string {
 		if s.Kind == "svg" && h.Lang == "svg" {
 			continue
 		}
-		if mode == 0 {
+		if mode <= 0 {
 			continue
 		}
 		expect = append(expect, s)
@@ -385,7 +399,7 @@ func c11Judge(run *core.Run, h c11Host, reg c11Reg, hostile int) string {
 		} else if reg.mode[s.Mediatype] >= 2 && (s.Kind == "datauri" || s.Kind == "cssdatauri") {
 			ci++ // the failing minifier was called, DataURI falls back to the original
 			want = append(want, s.Kind+":"+s.Payload)
-		} else if s.Kind == "iframe" {
+		} else if s.Kind == "iframe" && reg.mode["text/html"] == -1 {
 			// text/html is the host's own minifier: the slot must hold what it returns for the content alone
 			mm := minify.New()
 			mm.Add("text/html", &mhtml.Minifier{})
@@ -597,6 +611,13 @@ func C11(run *core.Run) {
 			default:
 				reg.mode[mt] = 1
 			}
+		}
+		// the registry's text/html entry (what iframe content must go through): the host itself in two thirds of
+		// the cases (mode -1), otherwise absent (0), a stub (1) or a failing stub (2, 3) while the host minifier is
+		// called directly
+		reg.mode["text/html"] = -1
+		if h.Lang == "html" && i%3 == 2 {
+			reg.mode["text/html"] = []int{0, 1, 1, 2, 3, 0}[r.Intn(6)]
 		}
 		if i%4 == 0 { // a quarter of the cases without failing minifiers at all
 			for k, v := range reg.mode {
